@@ -3,7 +3,7 @@
 import json, os, re, shutil, subprocess, sys
 pid = sys.argv[1]
 extra = sys.argv[2:]
-src = f"/tmp/mut/{pid}/out"
+src = os.environ.get("SEED_SRC", "/tmp/mut") + f"/{pid}/out"
 for k in (1, 2, 3):
     d = f"{src}/m{k}.diff"
     if not os.path.exists(d):
